@@ -125,7 +125,7 @@ func lemma_C14_setattr(t uint8, value []byte) {
 // bit length for RES / KDF_INPUT; decode recovers it; encoding twice is identical
 //
 func verifAkaOne(code, id, subtype, t uint8, value []byte) {
-	verifAssume(len(value) <= 200)
+	verifAssume(len(value) <= 1016)
 	v0 := append([]byte{}, value...)
 	a := NewEapAkaPrime(EapAkaSubtype(subtype))
 	if a.SetAttr(EapAkaPrimeAttrType(t), value) != nil {
@@ -134,18 +134,18 @@ func verifAkaOne(code, id, subtype, t uint8, value []byte) {
 	x := &EAP{Code: EapCode(code), Identifier: id, EapTypeData: a}
 	b, err := x.Marshal()
 	n := len(v0)
-	verifAssert(err == nil && len(b)%4 == 0 && int(b[2])<<8|int(b[3]) == len(b), "C14/aka-packet-length")
+	verifAssert(err == nil && len(b)%4 == 0 && int(b[2])<<8|int(b[3]) == len(b), "C03+C14/aka-packet-length")
 	verifAssert(b[4] == 50 && b[5] == subtype && b[6] == 0 && b[7] == 0, "C14/aka-type-subtype-reserved")
-	verifAssert(b[8] == t && 4*int(b[9]) == len(b)-8, "C14/attribute-type-and-length-in-words")
+	verifAssert(b[8] == t && 4*int(b[9]) == len(b)-8, "C03+C14/attribute-type-and-length-in-words")
 	if EapAkaPrimeAttrType(t) == AT_KDF {
 		verifAssert(len(b) == 12 && verifBytesEq(b[10:12], v0), "C14/kdf-value-in-the-header-word")
 	} else {
 		if EapAkaPrimeAttrType(t) == AT_RES || EapAkaPrimeAttrType(t) == AT_KDF_INPUT {
-			verifAssert(int(b[10])<<8|int(b[11]) == 8*n, "C14/exact-value-length-in-bits-on-the-wire")
+			verifAssert(int(b[10])<<8|int(b[11]) == 8*n, "C03+C14/exact-value-length-in-bits-on-the-wire")
 		} else {
 			verifAssert(b[10] == 0 && b[11] == 0, "C14/reserved-zero-on-the-wire")
 		}
-		verifAssert(len(b) >= 12+n && len(b) < 12+n+4 && verifBytesEq(b[12:12+n], v0), "C14/value-then-padding-to-a-multiple-of-four")
+		verifAssert(len(b) >= 12+n && len(b) < 12+n+4 && verifBytesEq(b[12:12+n], v0), "C03+C14/value-then-padding-to-a-multiple-of-four")
 		i := verifAny()
 		verifAssert(!(12+n <= i && i < len(b)) || b[i] == 0, "C14/padding-is-zero")
 	}
@@ -177,36 +177,33 @@ func verifAkaWire(code, id, subtype, t uint8, value, pad []byte) {
 	copy(w[8+hdr:], value)
 	copy(w[8+hdr+n:], pad)
 	y := new(EAP)
-	verifAssert(y.Unmarshal(w) == nil, "C14/well-formed-aka-packet-accepted")
+	verifAssert(y.Unmarshal(w) == nil, "C03+C14/well-formed-aka-packet-accepted")
 	z, ok := y.EapTypeData.(*EapAkaPrime)
 	verifAssert(ok && uint8(y.Code) == code && y.Identifier == id && uint8(z.SubType()) == subtype, "C14/aka-code-identifier-subtype-recovered")
 	g, e3 := z.GetAttr(EapAkaPrimeAttrType(t))
-	verifAssert(e3 == nil, "C14/decoded-attribute-found")
-	verifAssert(verifBytesEq(g.GetValue(), value), "C14/decoded-value-is-the-value-carried")
+	verifAssert(e3 == nil, "C03+C14/decoded-attribute-found")
+	verifAssert(verifBytesEq(g.GetValue(), value), "C03+C14/decoded-value-is-the-value-carried")
 	verifAssert(verifDisjoint(g.GetValue(), w), "C20/aka-attribute-owns-its-value")
-	zeroPad := true
-	for i := 0; i < len(pad); i++ {
-		if pad[i] != 0 {
-			zeroPad = false
-		}
-	}
-	if zeroPad {
-		w2, e4 := y.Marshal()
-		verifAssert(e4 == nil && len(w2) == len(w), "C12/aka-canonical-packet-re-encodes-to-the-same-length")
-		j := verifAny()
-		if len(pad) == 0 {
-			verifAssert(!(0 <= j && j < len(w) && j < len(w2)) || w2[j] == w[j], "C12/aka-canonical-packet-re-encodes-to-the-same-bytes")
-		} else {
-			// (content comparison of padded packets is beyond the solvers' reach in one
-			// query: the length and the padding region are; the header / value layout of the
-			// re-encoding is what the encode-side lemmas prove)
-			verifAssert(!(12+n <= j && j < len(w2)) || w2[j] == 0, "C12/aka-canonical-padded-packet-re-encodes-with-zero-padding")
-		}
+	// re-encoding what was decoded: same size (the length octet read is the length octet
+	// written, whatever padding the sender chose - minimal or not), zero padding, and for
+	// an unpadded packet the same octets
+	verifAssert(4*int(g.length) == hdr+n+len(pad), "C12/aka-decoded-attribute-keeps-its-length-octet")
+	w2, e4 := y.Marshal()
+	verifAssert(e4 == nil, "C12/aka-decoded-packet-re-encodes")
+	verifAssert(len(w2) == len(w), "C12/aka-packet-re-encodes-to-the-same-length")
+	j := verifAny()
+	if len(pad) == 0 {
+		verifAssert(!(0 <= j && j < len(w) && j < len(w2)) || w2[j] == w[j], "C12/aka-canonical-packet-re-encodes-to-the-same-bytes")
+	} else {
+		// (content comparison of padded packets is beyond the solvers' reach in one
+		// query: the length and the padding region are; the header / value layout of the
+		// re-encoding is what the encode-side lemmas prove)
+		verifAssert(!(12+n <= j && j < len(w2)) || w2[j] == 0, "C12/aka-padded-packet-re-encodes-with-zero-padding")
 	}
 }
 
 //verif:bounded packets with exactly one attribute
-//verif:maxlen value=200
+//verif:maxlen value=1016
 //verif:unroll (*eap.EapAkaPrime).Marshal#loop1 2 assert
 //verif:unroll (*eap.EapAkaPrime).getAttrsKeys#loop1 2 assert
 func lemma_C14_aka_rand_autn_mac(code, id, subtype, sel uint8, value []byte) {
@@ -220,7 +217,7 @@ func lemma_C14_aka_rand_autn_mac(code, id, subtype, sel uint8, value []byte) {
 }
 
 //verif:bounded packets with exactly one attribute
-//verif:maxlen value=200
+//verif:maxlen value=1016
 //verif:unroll (*eap.EapAkaPrime).Marshal#loop1 2 assert
 //verif:unroll (*eap.EapAkaPrime).getAttrsKeys#loop1 2 assert
 func lemma_C14_aka_res(code, id, subtype uint8, value []byte) {
@@ -228,7 +225,7 @@ func lemma_C14_aka_res(code, id, subtype uint8, value []byte) {
 }
 
 //verif:bounded packets with exactly one attribute
-//verif:maxlen value=200
+//verif:maxlen value=1016
 //verif:unroll (*eap.EapAkaPrime).Marshal#loop1 2 assert
 //verif:unroll (*eap.EapAkaPrime).getAttrsKeys#loop1 2 assert
 func lemma_C14_aka_kdf(code, id, subtype uint8, value []byte) {
@@ -236,7 +233,7 @@ func lemma_C14_aka_kdf(code, id, subtype uint8, value []byte) {
 }
 
 //verif:bounded packets with exactly one attribute
-//verif:maxlen value=200
+//verif:maxlen value=1016
 //verif:unroll (*eap.EapAkaPrime).Marshal#loop1 2 assert
 //verif:unroll (*eap.EapAkaPrime).getAttrsKeys#loop1 2 assert
 func lemma_C14_aka_kdf_input(code, id, subtype uint8, value []byte) {
@@ -244,7 +241,7 @@ func lemma_C14_aka_kdf_input(code, id, subtype uint8, value []byte) {
 }
 
 //verif:bounded packets with exactly one attribute
-//verif:maxlen value=200
+//verif:maxlen value=1016
 //verif:unroll (*eap.EapAkaPrime).Marshal#loop1 2 assert
 //verif:unroll (*eap.EapAkaPrime).getAttrsKeys#loop1 2 assert
 func lemma_C14_aka_checkcode(code, id, subtype uint8, value []byte) {
@@ -252,12 +249,11 @@ func lemma_C14_aka_checkcode(code, id, subtype uint8, value []byte) {
 }
 
 //verif:bounded packets with exactly one attribute
-//verif:maxlen value=200 pad=3
+//verif:maxlen value=1016 pad=1016
 //verif:unroll (*eap.EapAkaPrime).Marshal#loop1 2 assert
 //verif:unroll (*eap.EapAkaPrime).getAttrsKeys#loop1 2 assert
 //verif:unroll (*eap.EapAkaPrime).Unmarshal#loop1 3 assert
 //verif:unroll (*eap.EapAkaPrime).GetAttr#loop1 2 assert
-//verif:unroll eap.verifAkaWire#loop1 4 assert
 func lemma_C14_wire_rand_autn_mac(code, id, subtype, sel uint8, value []byte) {
 	verifAssume(len(value) == 16)
 	t := uint8(AT_RAND)
@@ -270,48 +266,45 @@ func lemma_C14_wire_rand_autn_mac(code, id, subtype, sel uint8, value []byte) {
 }
 
 //verif:bounded packets with exactly one attribute
-//verif:maxlen value=200 pad=3
+//verif:maxlen value=1016 pad=1016
 //verif:unroll (*eap.EapAkaPrime).Marshal#loop1 2 assert
 //verif:unroll (*eap.EapAkaPrime).getAttrsKeys#loop1 2 assert
 //verif:unroll (*eap.EapAkaPrime).Unmarshal#loop1 3 assert
 //verif:unroll (*eap.EapAkaPrime).GetAttr#loop1 2 assert
-//verif:unroll eap.verifAkaWire#loop1 4 assert
 func lemma_C14_wire_res(code, id, subtype uint8, value, pad []byte) {
-	verifAssume(len(value) >= 4 && len(value) <= 16 && len(pad) <= 3 && (len(value)+len(pad))%4 == 0)
+	verifAssume(len(value) >= 4 && len(value) <= 16 && 4+len(value)+len(pad) <= 1020 && (len(value)+len(pad))%4 == 0)
 	verifAkaWire(code, id, subtype, uint8(AT_RES), value, pad)
 }
 
 //verif:bounded packets with exactly one attribute
-//verif:maxlen value=200 pad=3
+//verif:maxlen value=1016 pad=1016
 //verif:unroll (*eap.EapAkaPrime).Marshal#loop1 2 assert
 //verif:unroll (*eap.EapAkaPrime).getAttrsKeys#loop1 2 assert
 //verif:unroll (*eap.EapAkaPrime).Unmarshal#loop1 3 assert
 //verif:unroll (*eap.EapAkaPrime).GetAttr#loop1 2 assert
-//verif:unroll eap.verifAkaWire#loop1 4 assert
 func lemma_C14_wire_kdf(code, id, subtype uint8, value []byte) {
 	verifAssume(len(value) == 2)
 	verifAkaWire(code, id, subtype, uint8(AT_KDF), value, nil)
 }
 
 //verif:bounded packets with exactly one attribute
-//verif:maxlen value=200 pad=3
+//verif:maxlen value=1016 pad=1016
 //verif:unroll (*eap.EapAkaPrime).Marshal#loop1 2 assert
 //verif:unroll (*eap.EapAkaPrime).getAttrsKeys#loop1 2 assert
 //verif:unroll (*eap.EapAkaPrime).Unmarshal#loop1 3 assert
 //verif:unroll (*eap.EapAkaPrime).GetAttr#loop1 2 assert
-//verif:unroll eap.verifAkaWire#loop1 4 assert
 func lemma_C14_wire_kdf_input(code, id, subtype uint8, value, pad []byte) {
-	verifAssume(len(value) <= 200 && len(pad) <= 3 && (len(value)+len(pad))%4 == 0)
+	// any value length a length octet can describe, any padding: minimal or whole extra words
+	verifAssume(4+len(value)+len(pad) <= 1020 && (len(value)+len(pad))%4 == 0)
 	verifAkaWire(code, id, subtype, uint8(AT_KDF_INPUT), value, pad)
 }
 
 //verif:bounded packets with exactly one attribute
-//verif:maxlen value=200 pad=3
+//verif:maxlen value=1016 pad=1016
 //verif:unroll (*eap.EapAkaPrime).Marshal#loop1 2 assert
 //verif:unroll (*eap.EapAkaPrime).getAttrsKeys#loop1 2 assert
 //verif:unroll (*eap.EapAkaPrime).Unmarshal#loop1 3 assert
 //verif:unroll (*eap.EapAkaPrime).GetAttr#loop1 2 assert
-//verif:unroll eap.verifAkaWire#loop1 4 assert
 func lemma_C14_wire_checkcode(code, id, subtype uint8, value []byte) {
 	verifAssume(len(value) == 0 || len(value) == 20 || len(value) == 32)
 	verifAkaWire(code, id, subtype, uint8(AT_CHECKCODE), value, nil)
